@@ -105,24 +105,27 @@ theorem ctl_after_fatal (acts : List Act) : ∀ (s : Ctl), CInv s → s.disc = t
       obtain ⟨h1, h2⟩ := ih s' (cstep_inv s s' a h hs) hd'
       exact ⟨by simpa [ha] using h1, by simpa using h2⟩
 
-/-- the full reading "no `send` call at all is *attempted* on the socket after the fatal error" -/
-def ctl_no_attempt_after_fatal_full : Prop :=
-  ∀ (pb : Nat) (acts : List Act), (crun { pb := pb } acts).offeredAfterDisc = 0
+/-- **ctl_no_attempt_after_fatal**: the full reading — in every interleaving (raced `Connection.send`s included), for
+every script of socket outcomes, no `sock.send` call at all is *attempted* on the socket after the connection was
+marked disconnected, and a disconnected connection has nothing left in the deferred queue.  (Holds since repair C20-R1:
+`DeferredSender.send` tests `con.disconnected` under the lock.) -/
+theorem ctl_no_attempt_after_fatal (pb : Nat) (acts : List Act) :
+    (crun { pb := pb } acts).offeredAfterDisc = 0 ∧
+    ((crun { pb := pb } acts).disc = true → (crun { pb := pb } acts).pending = []) :=
+  let n := crun_noatt acts { pb := pb } (cinit_inv pb) (cinit_noatt pb)
+  ⟨n.quiet, n.empty⟩
 
-/-- …is false of the code as written: a `Connection.send` that passed its `disconnected` test before the sender thread
-hit the fatal error still defers its data, and the sender thread offers it to the (shut-down) socket once.  The bytes
-are refused (`ctl_after_fatal`), so the stream property is unaffected; recorded as a benign race in DESIGN.md. -/
+/-- the interleaving that used to defeat it (finding C20-R1, now repaired): a `Connection.send` that passed its
+`disconnected` test before the sender thread hit the fatal error.  Kept as a regression witness: it is replayed on the
+real code by the harness (corpus case `send_raced`). -/
 def raceActs : List Act :=
   [.coopCheck [1], .coopGo .again, .coopEnq,            -- first message deferred: sending = True
    .coopCheck [2], .coopGo .again,                       -- second send: past the `disconnected` test, saw sending
    .senderBegin, .senderSend .fatal,                     -- sender thread: fatal error, connection disconnected
-   .coopEnq,                                             -- …second message is deferred anyway
-   .senderBegin, .senderSend (.accept 1)]                -- and offered to the dead socket
-theorem ctl_no_attempt_after_fatal_defect : ¬ ctl_no_attempt_after_fatal_full := by
-  intro h
-  have := h 512 raceActs
-  revert this
-  decide
+   .coopEnq,                                             -- …second message arrives at the deferred sender: dropped
+   .senderBegin, .senderSend (.accept 1)]                -- nothing pending: the sender does not touch the socket
+example : (crun { pb := 512 } raceActs).offeredAfterDisc = 0 ∧ (crun { pb := 512 } raceActs).pending = [] ∧
+    (crun { pb := 512 } raceActs).disc = true := by decide
 
 /-! non-vacuity -/
 example : (run [.send [1,2,3], .pump (.accept 2), .sendFast [4] .again, .pump .again, .pump (.accept 9)]).accepted
